@@ -431,12 +431,12 @@ def only_param_names_differ(m):
 
 
 def run_harness(ctx, binary, moddir, outdir, tag, seed, create, modes, scenarios, runs, initial, ondemand, mvmax,
-                trace=True, yields="150,200,2000", patterns="./...", timeout=2400):
+                trace=True, yields="150,200,2000", patterns="./...", timeout=7200):
     out = os.path.join(outdir, "res-%s.json" % tag)
     tr = os.path.join(outdir, "trace-%s.ndjson" % tag)
     cmd = [binary, "-dir", moddir, "-patterns", patterns, "-create", create, "-modes", modes, "-scenarios", scenarios,
            "-runs", str(runs), "-seed", str(seed), "-ondemand", str(ondemand), "-mvmax", str(mvmax), "-out", out,
-           "-yield", yields, "-watchdog", "240"]
+           "-yield", yields, "-watchdog", "900"]
     if initial:
         cmd += ["-initial", initial]
     if trace:
@@ -623,6 +623,10 @@ STD_THOROUGH = "container/list,container/ring,container/heap,sort,slices,maps,st
 
 RMOD = "ex.test/r"
 
+# C18_CAP=<n>: cap the thorough tier (n forced cases per family, 2 programs, the two large exhaustive
+# configs and the coverage run skipped) -- used to exercise the thorough path on an overloaded machine.
+CAP = int(os.environ.get("C18_CAP", "0") or 0)
+
 
 def gate_program_files(k, rootrefs, fnrefs):
     """Realise an abstract program of MCIRBuild: shared function i = lib.G<i>[int]."""
@@ -642,7 +646,7 @@ def forced_schedules(ctx, helper):
     quick = ctx.quick
     r1 = vlib.run_tlc(ctx, "MCIRBuild", "MCIRBuild_gen1.cfg", workers=4, timeout=3000)
     vlib.tlc_require_ok(r1, "generation config gen1")
-    r2 = vlib.run_tlc(ctx, "MCIRBuild", "MCIRBuild_gen2.cfg", workers=1, timeout=3000, simulate="num=%d" % (400 if quick else 4000),
+    r2 = vlib.run_tlc(ctx, "MCIRBuild", "MCIRBuild_gen2.cfg", workers=1, timeout=3000, simulate="num=%d" % (400 if quick else 2000),
                       depth=80, seed=ctx.seed)
     vlib.tlc_require_ok(r2, "generation config gen2")
     if not r1.cases or not r2.cases:
@@ -654,14 +658,39 @@ def forced_schedules(ctx, helper):
             if key not in seen:
                 seen.add(key)
                 dst.append(c)
-    chosen = (vlib.sample(ctx, cases1, 60) + vlib.sample(ctx, cases2, 60)) if quick else (cases1 + vlib.sample(ctx, cases2, 2500))
+    chosen = (vlib.sample(ctx, cases1, 60) + vlib.sample(ctx, cases2, 60)) if quick else (cases1 + vlib.sample(ctx, cases2, 800))
+    if CAP and not quick:
+        chosen = vlib.sample(ctx, cases1, CAP) + vlib.sample(ctx, cases2, CAP)
+    # Besides the literal interleaving of every behaviour, its "hitter-rush" variant: after the first
+    # memo hit on a function created by the other builder, the hitting builder gets priority for all
+    # its remaining steps.  In the spec (and in a correct builder) it then blocks in task.wait until
+    # the creator is done, and the controller falls back to the creator; a builder that does not wait
+    # returns early and the outside observation at its return sees the unbuilt function.  Any priority
+    # list is a legitimate schedule: the controller only ever releases a builder whose next step is enabled.
+    variants = []
+    for c in chosen:
+        creator, cut = {}, None
+        for i, st in enumerate(c["steps"]):
+            if st["a"] == "create":
+                creator[st["f"]] = st["b"]
+            elif st["a"] == "hit" and creator.get(st["f"]) not in (None, st["b"]):
+                cut = i
+                break
+        if cut is not None:
+            h = c["steps"][cut]["b"]
+            v = dict(c)
+            v["variant"] = "hitter-rush"
+            v["schedule"] = [s["b"] for s in c["steps"][:cut + 1]] + [h] * len(c["steps"]) + [s["b"] for s in c["steps"][cut + 1:]]
+            variants.append(v)
+    variants = vlib.sample(ctx, variants, 60 if quick else (CAP or 800))
+    chosen = chosen + variants
     progs, files, gcases = {}, {"go.mod": "module %s\n\ngo 1.22\n" % RMOD}, []
     for i, c in enumerate(chosen):
         pk = json.dumps([c["rootrefs"], c["fnrefs"]])
         if pk not in progs:
             progs[pk] = len(progs)
             files.update(gate_program_files(progs[pk], c["rootrefs"], c["fnrefs"]))
-        gcases.append({"id": i, "prog": "%s/r%d" % (RMOD, progs[pk]), "schedule": [s["b"] for s in c["steps"]]})
+        gcases.append({"id": i, "prog": "%s/r%d" % (RMOD, progs[pk]), "schedule": c.get("schedule") or [s["b"] for s in c["steps"]]})
     d = ctx.tmp("gate")
     write_module(d, files)
     rc, so, se = vlib.sh(["go", "vet", "./..."], cwd=d, env=vlib.go_env(), timeout=1200)
@@ -686,23 +715,24 @@ def forced_schedules(ctx, helper):
         followed += g["followed"]
         deferred += g["deferred"]
         for v in g["violations"]:
-            abstract = {"rootrefs": c["rootrefs"], "fnrefs": c["fnrefs"], "schedule": [s["b"] for s in c["steps"]]}
+            abstract = {"rootrefs": c["rootrefs"], "fnrefs": c["fnrefs"], "schedule": c.get("schedule") or [s["b"] for s in c["steps"]],
+                        "variant": c.get("variant", "literal")}
             ctx.violation(vlib.canon_key({"forced": v["kind"], "rootrefs": c["rootrefs"], "fnrefs": c["fnrefs"]}),
                           "forced schedule: %s: %s" % (v["kind"], v["what"]),
                           {"kind": "forced", "oracle": v["kind"], "abstract": abstract, "tlc_steps": c["steps"], "executed_order": g["order"],
                            "files": {k: v2 for k, v2 in files.items() if k == "go.mod" or k.startswith(g["prog"].split("/")[-1] + "/")}, "detail": v})
     stats = {"tlc_gen1": {"states": r1.distinct, "behaviours": len(cases1)}, "tlc_gen2_simulated_behaviours": len(cases2),
-             "programs": len(progs), "cases_forced": len(gcases), "gate_steps": steps, "schedule_entries_followed": followed,
-             "schedule_entries_deferred": deferred, "exhaustive_1fn": not quick,
+             "programs": len(progs), "cases_forced": len(gcases), "hitter_rush_variants": len(variants), "gate_steps": steps, "schedule_entries_followed": followed,
+             "schedule_entries_deferred": deferred, "exhaustive_1fn": not quick and not CAP,
              "sample": {"program": json.loads(next(iter(progs))), "schedule": gcases[0]["schedule"], "executed": doc["gate"][0]["order"]}}
     return stats, tr
 
 
 def tlc_exhaustive(ctx):
     """Exhaustive TLC on MCIRBuild.  Model-level violations are never verdicts (Inconclusive)."""
-    cfgs = [("MCIRBuild_q.cfg", 6, 1500), ("MCIRBuild_again.cfg", 4, 1500)]
-    if not ctx.quick:
-        cfgs += [("MCIRBuild_s2.cfg", 10, 7200), ("MCIRBuild_s3.cfg", 10, 7200)]
+    cfgs = [("MCIRBuild_q.cfg", 4, 3000), ("MCIRBuild_again.cfg", 4, 3000)]
+    if not ctx.quick and not CAP:
+        cfgs += [("MCIRBuild_s2.cfg", 8, 10800), ("MCIRBuild_s3.cfg", 8, 10800)]
     res = vlib.pmap(lambda c: vlib.run_tlc(ctx, "MCIRBuild", c[0], workers=c[1], timeout=c[2], keep_cases=False), cfgs, workers=2)
     out = {}
     for (cfg, _, _), r in zip(cfgs, res):
@@ -710,7 +740,7 @@ def tlc_exhaustive(ctx):
         if r.distinct == 0:
             raise Inconclusive("TLC explored no state for %s:\n%s" % (cfg, r.out[-2000:]))
         out[cfg] = {"states": r.distinct, "transitions": r.generated, "wall_s": round(r.wall, 1)}
-    if not ctx.quick:
+    if not ctx.quick and not CAP:
         # vacuity: every action of the model is taken in the quick config
         r = vlib.run_tlc(ctx, "MCIRBuild", "MCIRBuild_q.cfg", workers=4, timeout=3000, coverage=True, keep_cases=False)
         vlib.tlc_require_ok(r, "coverage run")
@@ -762,8 +792,8 @@ def run(ctx):
     sens_future = ex.submit(model_sensitivity, ctx) if not quick else None
 
     # 2. programs
-    nprog = 2 if quick else 6
-    runs = 1 if quick else 3
+    nprog = 2 if (quick or CAP) else 6
+    runs = 1 if quick else (2 if CAP else 3)
     ondemand, mvmax = (2, 12) if quick else (3, 40)
     work = ctx.tmp("irbuild")
     progs = []
@@ -870,11 +900,14 @@ def run(ctx):
         "functions_dumped_and_compared": nfuncs,
         "shared_functions_seen": nshared,
         "on_demand_methodvalue_calls": mv,
-        "programs": [p["name"] for p in progs] + ["std:" + (STD_QUICK if quick else STD_THOROUGH)],
+        "programs": len(progs) + 1 + gstats.get("programs", 0),
+        "program_names": [p["name"] for p in progs] + ["std:" + (STD_QUICK if quick else STD_THOROUGH), "forced-schedule programs r0.."],
         "samples": sample_runs + tstats["samples"][:3],
         "trusted_base": ["TLC 1.8.0", "go toolchain and race detector", "golang.org/x/tools/go/packages (loading)",
                          "go/ir verif hooks as event source (verdict-relevant observations are taken through the public API)"],
     }
+    if CAP:
+        ctx.coverage["capped"] = "C18_CAP=%d: large exhaustive configs (s2, s3), coverage run and most forced cases skipped" % CAP
     ctx.assumptions = [
         "exhaustive TLC bounds: 2 package builders + 1 on-demand builder, <= 2 shared functions (thorough: all reference relations; 3 shared functions with single lookups per builder); 2 Build callers x 1 package for the sync.Once layer",
         "the three memo tables (instances, objectMethods, methodSets) are modelled as one table; private functions (package members, thunks, bounds) are not tracked individually",
